@@ -587,7 +587,119 @@ def main():
     ac.append("end Aidl.Gen")
     ac.append("")
 
+    # ---------------- typing: signatures of the actions, types of the symbols, call depth ----------------
+    LEAF = {"ast::Aidl": ".aidl", "ast::Annotation": ".ann", "ast::Arg": ".arg", "ast::Const": ".const",
+            "ast::Direction": ".dir", "ast::Enum": ".enm", "ast::EnumElement": ".enumEl", "ast::Field": ".field",
+            "ast::Import": ".import_", "ast::Interface": ".iface", "ast::InterfaceElement": ".iel", "ast::Item": ".item",
+            "ast::Method": ".method", "ast::Package": ".package", "ast::Parcelable": ".parc",
+            "ast::ParcelableElement": ".pel", "ast::Type": ".ty"}
+
+    def split_top(t):
+        parts, depth, cur = [], 0, ""
+        for ch in t:
+            if ch in "<(":
+                depth += 1
+            elif ch in ">)":
+                depth -= 1
+            if ch == "," and depth == 0:
+                parts.append(cur.strip())
+                cur = ""
+            else:
+                cur += ch
+        if cur.strip():
+            parts.append(cur.strip())
+        return parts
+
+    def vty(t):
+        t = t.strip()
+        if t.startswith("Result<"):
+            return vty(split_top(t[len("Result<"):-1])[0])
+        if t in ("&'input str",):
+            return ".tok"
+        if t == "usize":
+            return ".loc"
+        if t == "String":
+            return ".str"
+        if t.startswith("__lalrpop_util::ErrorRecovery<"):
+            return ".recovery"
+        if t in LEAF:
+            return LEAF[t]
+        for pre in ("core::option::Option<",):
+            if t.startswith(pre) and t.endswith(">"):
+                return f"(.opt {vty(t[len(pre):-1])})"
+        if t.startswith("Option<") and t.endswith(">"):
+            inner = t[len("Option<"):-1]
+            # an `Option<ast::…>` written in aidl.lalrpop: `None` comes from error recovery only
+            return f"(.optNS {vty(inner)})" if inner.startswith("ast::") else f"(.opt {vty(inner)})"
+        for pre in ("alloc::vec::Vec<", "Vec<"):
+            if t.startswith(pre) and t.endswith(">"):
+                return f"(.list {vty(t[len(pre):-1])})"
+        if t.startswith("(") and t.endswith(")"):
+            parts = split_top(t[1:-1])
+            if len(parts) == 2:
+                return f"(.pair {vty(parts[0])} {vty(parts[1])})"
+        fail(f"unrecognised Rust type `{t}`")
+
+    def aty(p):
+        ty = p.split(": ", 1)[1]
+        if ty == "&usize":
+            return ".locRef"
+        m1 = re.fullmatch(r"\(usize, (.*), usize\)", ty)
+        if not m1:
+            fail(f"unrecognised parameter type `{ty}`")
+        return f".triple {vty(m1.group(1))}"
+
+    sigs = []
+    for n in range(len(acts)):
+        params, ret, body = acts[n]
+        sigs.append("  { params := [" + ", ".join(aty(p) for p in params) + "], ret := " + vty(ret) + " }")
+    # type of every symbol id: terminals are tokens, `error` is the recovery record, a non-terminal
+    # has the return type of the actions of its productions
+    nt_ty = {}
+    for i in range(len(prods)):
+        lhs, rhs, act, fallible, accept, ret = prods[i]
+        if accept:
+            continue
+        t = vty(acts[act][1])
+        if nt_ty.setdefault(nt_of[lhs], t) != t:
+            fail(f"non-terminal {lhs} has two types")
+    nnt = max(nt_ty) + 1
+    sym_tys = [".tok"] * (ncols - 1) + [".recovery"] + [nt_ty.get(k, ".tok") for k in range(nnt)]
+    # call depth of every action (0 for generic builders and actions with user text)
+    calls = {}
+    for n in range(len(acts)):
+        norm = re.sub(r"\s+", " ", acts[n][2]).strip()
+        calls[n] = [int(x) for x in re.findall(r"__action(\d+)\(", norm)] if comp_re.fullmatch(norm) else []
+    rank = {}
+    def rank_of(n, seen=()):
+        if n in rank:
+            return rank[n]
+        if n in seen:
+            fail(f"action {n} calls itself")
+        r = 0 if not calls[n] else 1 + max(rank_of(c, seen + (n,)) for c in calls[n])
+        rank[n] = r
+        return r
+    for n in range(len(acts)):
+        rank_of(n)
+    ty = ["import AidlVerif.Model.Typing", "",
+          "/-! GENERATED by tools/gen_parser_tables.py from the generated parser — do not edit. -/", "",
+          "namespace Aidl.Gen", "open Aidl.Typing", "",
+          "/-- parameter and return types of every `__actionN`, from its Rust signature -/",
+          "def actionSigs : Array Sig := #["]
+    ty.append(",\n".join(sigs) + "]")
+    ty.append("")
+    ty.append("/-- type of the value of every grammar symbol, by symbol id -/")
+    ty.append("def symTys : Array VTy := #[" + ", ".join(sym_tys) + "]")
+    ty.append("")
+    ty.append("/-- nesting depth of the calls of every action -/")
+    ty.append("def actionRanks : Array Nat := #[" + ", ".join(str(rank[n]) for n in range(len(acts))) + "]")
+    ty.append("")
+    ty.append("end Aidl.Gen")
+    ty.append("")
+
     changed = []
+    if write_if_changed(os.path.join(gen_dir, "Typing.lean"), "\n".join(ty)):
+        changed.append("Typing")
     if write_if_changed(os.path.join(gen_dir, "LexTable.lean"), "\n".join(lex)):
         changed.append("LexTable")
     if write_if_changed(os.path.join(gen_dir, "LrTables.lean"), "\n".join(lr)):
